@@ -730,6 +730,26 @@ def alias_root(dl, name, at):
     return name
 
 
+def same_file_helper(init):
+    """`self.helper(args)` where `helper` is a unique method of InterfaceGenerator defined in this file -> (FnInfo, args)"""
+    if init is None or init.get("k") != "mcall" or render(init["recv"]) != "self":
+        return None
+    fs = [x for x in synq.find_fns(REL, init["method"]) if x.self_ty == "InterfaceGenerator"]
+    if len(fs) != 1:
+        return None
+    return fs[0], init["args"]
+
+
+def returned_values(fn, pth):
+    """candidate values (tuple component `pth`) of everything `fn` returns: its tail expression and every `return e`"""
+    from .C13 import tail_values
+    vals = tail_values(fn.body, pth)
+    for n in synq.walk(fn.body):
+        if n.get("k") == "return" and n.get("e") is not None:
+            vals += tail_values(n["e"], pth)
+    return vals
+
+
 def first_id_origin(dl, lp, tyv, named, letc, use):
     """`if let Some(first) = D`: every non-None value of D is the TypeId stored in `prim_names` under this type's C name"""
     d = letc["e"]
@@ -742,40 +762,58 @@ def first_id_origin(dl, lp, tyv, named, letc, use):
     pth = pat_path(b[1]["pat"], d["path"])
     if pth is None:
         return False, f"`{d['path']}`: binding pattern not understood"
-    vals = tail_values(b[1].get("init"), pth)
     cname = None
     if named:
         a1 = [x for x in named if pos(x) < pos(use)][-1]["args"][1]
         cname = a1["path"] if a1.get("k") == "path" else None
+    np_ = pat_path(b[1]["pat"], cname) if cname is not None else None
+    init = b[1].get("init")
+    scope, ty_here, via = dl.node, tyv, ""
+    hp = same_file_helper(init)
+    if hp is not None:
+        # the naming was moved into a private helper: judge the tuple it returns, with `ty` mapped to its parameter
+        hf, args = hp
+        params = [q for q in hf.params if q != "self"]
+        tp = [q for q, a_ in zip(params, args) if render(a_).lstrip("&*") == tyv]
+        if len(params) != len(args) or len(tp) != 1 or tp[0] is None:
+            return False, f"`{hf.name}` does not receive the type id `{tyv}` as one plain parameter"
+        scope, ty_here, via = hf.node, tp[0], f" (computed by `{hf.name}`)"
+        vals = returned_values(hf, pth)
+        name_vals = returned_values(hf, np_) if np_ is not None else []
+        cname_here = None          # the C name is whatever the helper returns as the name component
+    else:
+        vals = tail_values(init, pth)
+        name_vals = tail_values(init, np_) if np_ is not None else []
+        cname_here = cname
+    outs = {x["path"] for x in name_vals if x is not None and x.get("k") == "path"}
     seen = 0
     for v in vals:
-        if v is None:
+        if v is None or v.get("k") == "$component":
             return False, f"a value of `{d['path']}` has an unknown shape"
         if v.get("k") == "path" and v["path"] == "None":
             continue
-        locs = {x["path"] for x in synq.walk(v) if x.get("k") == "path" and "::" not in x["path"] and x["path"] not in ("Some", "None", tyv)}
+        locs = {x["path"] for x in synq.walk(v) if x.get("k") == "path" and "::" not in x["path"] and x["path"] not in ("Some", "None", ty_here)}
         if len(locs) != 1:
             return False, f"`{render(v)[:50]}`: not a single candidate id"
-        fl = lookup(dl.node, next(iter(locs)), v)
-        init = fl[1].get("init") if fl and fl[0] == "let" else None
-        r = render(init) if init is not None else ""
+        cand = next(iter(locs))
+        fl = lookup(scope, cand, v)
+        cinit = fl[1].get("init") if fl and fl[0] == "let" else None
+        r = render(cinit) if cinit is not None else ""
         m_ = re.fullmatch(r"\*?\(?\*?(.*)\.prim_names\.entry\((\w+)(?:\.clone\(\))?\)\.or_insert\((\w+)\)\)?", r)
-        if not m_ or m_.group(3) != tyv:
-            return False, f"the candidate id `{next(iter(locs))}` = `{r[:60]}` is not `prim_names.entry(<name>).or_insert({tyv})`"
+        if not m_ or m_.group(3) != ty_here:
+            return False, f"the candidate id `{cand}` = `{r[:60]}` is not `prim_names.entry(<name>).or_insert({ty_here})`"
         if cname is not None:
             # the key must be the very string that becomes the type's C name: `cname` itself, or the local that the same
-            # `let (.., cname) = ..` hands out as its name component
-            np_ = pat_path(b[1]["pat"], cname)
-            outs = {x["path"] for x in (tail_values(b[1].get("init"), np_) if np_ is not None else []) if x is not None and x.get("k") == "path"}
-            if m_.group(2) != cname and m_.group(2) not in outs:
+            # tuple hands out as its name component
+            if m_.group(2) != cname_here and m_.group(2) not in outs:
                 return False, (f"`prim_names` is keyed by `{m_.group(2)}`, which is not the C name given to the type (`{cname}`): the "
                                "TypeId found there need not be a type with the same C definition")
-        if not re.search(r"\b" + re.escape(next(iter(locs))) + r"\s*!=\s*" + re.escape(tyv) + r"\b|\b" + re.escape(tyv) + r"\s*!=\s*" + re.escape(next(iter(locs))) + r"\b", render(v)):
+        if not re.search(r"\b" + re.escape(cand) + r"\s*!=\s*" + re.escape(ty_here) + r"\b|\b" + re.escape(ty_here) + r"\s*!=\s*" + re.escape(cand) + r"\b", render(v)):
             return False, f"`{render(v)[:50]}` does not exclude the type itself"
         seen += 1
     if not seen:
         return False, f"`{d['path']}` is never Some"
-    return True, f"`{d['path']}` is the TypeId recorded first in `prim_names` for the same C name"
+    return True, f"`{d['path']}` is the TypeId recorded first in `prim_names` for the same C name{via}"
 
 
 def payload_guards(body, node):
@@ -1083,8 +1121,11 @@ def r11_3_helpers(rep):
             dup = False
             for nm_ in cond_names:
                 b_ = lookup(dl.node, nm_, n)
-                if b_ and b_[0] == "let" and b_[1].get("init") is not None and "prim_names" in render(b_[1]["init"]):
-                    dup = True
+                if b_ and b_[0] == "let" and b_[1].get("init") is not None:
+                    hp_ = same_file_helper(b_[1]["init"])
+                    if "prim_names" in render(b_[1]["init"]) or (hp_ is not None and any(
+                            x.get("k") == "field" and x["member"] == "prim_names" for x in synq.walk(hp_[0].body))):
+                        dup = True
             inst = "define_live_types: a type whose C name was already defined keeps a free helper" if dup else \
                 "define_live_types: an early exit after naming the type does not lose a free helper"
         seen_inst[inst] = seen_inst.get(inst, 0) + 1
